@@ -106,6 +106,16 @@ type ImplClause struct {
 	Inv   string
 }
 
+// GuardDecl: lock-discipline declarations. Target is "T.f" (field f of struct type T
+// of the package) or, with Global, the name of a package-level variable.
+type GuardDecl struct {
+	Pkg    string
+	Kind   string // "guarded" | "immutable"
+	Global bool
+	Target string
+	Mutex  string // guarded: field of the same struct (or, for a global, package-level variable) holding the sync.Mutex
+}
+
 type FuncContract struct {
 	Pkg         string // package path
 	RecvName    string
@@ -129,6 +139,7 @@ type FuncContract struct {
 	GhostParams []string
 	Only        []OnlyClause
 	Impl        *ImplClause
+	Thread      string   // "any": may run on a thread other than the frame loop's (lock discipline applies to every access)
 	PanicsIf    *Clause  // "panics if cond": an explicit panic is allowed exactly when cond holds (locals visible)
 	Callees     []string // whitelist of callee short names (empty = unrestricted)
 	CalleesTags []string
@@ -211,6 +222,7 @@ type SpecFile struct {
 	Contrs  []*FuncContract
 	Axioms  []AxiomDecl
 	Lemmas  []LemmaDecl
+	Guards  []GuardDecl
 	Imports map[string]string // alias -> package path
 }
 
@@ -601,9 +613,9 @@ func (ps *parser) parsePrimary() Expr {
 // not a keyword.
 
 var declKeywords = map[string]bool{"ghost": true, "pure": true, "pred": true, "rec": true, "func": true, "axiom": true, "lemma": true,
-	"package": true, "import": true, "abstract": true, "iface": true, "functype": true, "fieldfunc": true}
+	"package": true, "import": true, "abstract": true, "iface": true, "functype": true, "fieldfunc": true, "guarded": true, "immutable": true}
 var clauseKeywords = map[string]bool{"requires": true, "ensures": true, "check": true, "modifies": true, "ghost_entry": true,
-	"ghost_exit": true, "loop": true, "call": true, "mode": true, "allocates": true, "tags": true, "ghostparams": true, "only": true, "callees": true, "implements": true, "panics": true}
+	"ghost_exit": true, "loop": true, "call": true, "mode": true, "allocates": true, "tags": true, "ghostparams": true, "only": true, "callees": true, "implements": true, "panics": true, "thread": true}
 
 type rawLine struct {
 	text string
@@ -679,6 +691,26 @@ func parseSpecFile(path, pkgPath string, lines []rawLine) (sf *SpecFile, err err
 				return nil, fail(en, "expected Type.field")
 			}
 			sf.Ghosts = append(sf.Ghosts, GhostFieldDecl{sf.Pkg, tf[0], tf[1], parts[2]})
+			cur = nil
+		case "guarded", "immutable":
+			// guarded [global] T.f by m  |  immutable [global] T.f   (lock discipline, C16)
+			parts := strings.Fields(rest)
+			gd := GuardDecl{Pkg: sf.Pkg, Kind: w}
+			if len(parts) > 0 && parts[0] == "global" {
+				gd.Global = true
+				parts = parts[1:]
+			}
+			if len(parts) < 1 {
+				return nil, fail(en, "%s [global] T.f [by m]", w)
+			}
+			gd.Target = parts[0]
+			if w == "guarded" {
+				if len(parts) != 3 || parts[1] != "by" {
+					return nil, fail(en, "guarded [global] T.f by mutexField")
+				}
+				gd.Mutex = parts[2]
+			}
+			sf.Guards = append(sf.Guards, gd)
 			cur = nil
 		case "axiom":
 			i := strings.Index(rest, ":=")
@@ -761,6 +793,11 @@ func parseClause(fc *FuncContract, w, rest string, en rawLine, path string) erro
 	case "tags":
 		tags, _ := parseTags("[" + rest + "]")
 		fc.Tags = append(fc.Tags, tags...)
+	case "thread":
+		if strings.TrimSpace(rest) != "any" {
+			return fmt.Errorf("thread any")
+		}
+		fc.Thread = "any"
 	case "panics":
 		body := strings.TrimSpace(strings.TrimPrefix(strings.TrimSpace(rest), "if"))
 		e, err := parseExpr(body)
